@@ -1,7 +1,7 @@
 (* C15 -- Results are independent of the units of the axis and linear in the data. *)
 From Coq Require Import List Bool Arith ZArith QArith Qcanon.
 From NI Require Import Num Base Lookup Linear Interp Spline Tri TriProofs SplineAlgebra LookupProofs LinearProofs LinearExact
-  SplineProofs Units UnitsList BilinearList PeriodicSolve PeriodicLane PeriodicUnits.
+  SplineProofs Units UnitsList BilinearList PeriodicSolve PeriodicLane PeriodicUnits PeriodicUnitsTop SplineIndividual UnitsIndividual.
 Import ListNotations.
 Local Open Scope Qc_scope.
 
@@ -243,8 +243,71 @@ Theorem C15_spline_whole_additive :
 Proof. exact spline_whole_additive. Qed.
 Print Assumptions C15_spline_whole_additive.
 
-(* Partial: additivity of Bilinear at interpolator level (scalar statement above), the whole-interpolator
-   statements for per-lane / Periodic spline boundaries (slope statements above cover any Mixed pair) and the bit-for-bit clause
+(* Periodic boundary (n >= 4), interpolator level, queries inside the range *)
+Theorem C15_spline_periodic_scale_data :
+  forall (xs : list Qc) (data : list (list Qc)) (L : nat),
+    (forall i, (i < length data)%nat -> length (nth i data []) = L) ->
+    StrictIncQc xs -> length xs = length data -> (4 <= length data)%nat ->
+    (Z.of_nat (length data) <= two64)%Z -> (0 < L)%nat ->
+    forall (c : Qc) (ext : bool) (trail : list nat) (sp sp' : spline_strat) (x : Qc) (v : list Qc),
+      spline_build NumQc BPeriodic ext xs data trail = Ok sp ->
+      spline_build NumQc BPeriodic ext xs (map (map (Qcmult c)) data) trail = Ok sp' ->
+      in_closed_range NumQc 0 xs x = true ->
+      spline_interp NumQc sp xs data x = Ok v ->
+      spline_interp NumQc sp' xs (map (map (Qcmult c)) data) x = Ok (map (Qcmult c) v).
+Proof. exact spline_periodic_scale_data. Qed.
+Print Assumptions C15_spline_periodic_scale_data.
+
+Theorem C15_spline_periodic_axis_units :
+  forall (xs : list Qc) (data : list (list Qc)) (L : nat),
+    (forall i, (i < length data)%nat -> length (nth i data []) = L) ->
+    StrictIncQc xs -> length xs = length data -> (4 <= length data)%nat ->
+    (Z.of_nat (length data) <= two64)%Z -> (0 < L)%nat ->
+    forall (c s : Qc) (ext : bool) (trail : list nat) (sp sp' : spline_strat) (x : Qc) (v : list Qc), 0 < c ->
+      spline_build NumQc BPeriodic ext xs data trail = Ok sp ->
+      spline_build NumQc BPeriodic ext (map (aff c s) xs) data trail = Ok sp' ->
+      in_closed_range NumQc 0 xs x = true ->
+      spline_interp NumQc sp xs data x = Ok v ->
+      spline_interp NumQc sp' (map (aff c s) xs) data (aff c s x) = Ok v.
+Proof. exact spline_periodic_axis_units. Qed.
+Print Assumptions C15_spline_periodic_axis_units.
+
+(* per-lane (Individual) boundaries, interpolator level, derivative values of every lane converted *)
+Theorem C15_spline_individual_scale_data :
+  forall (xs : list Qc) (data : list (list Qc)) (L : nat),
+    (forall i, (i < length data)%nat -> length (nth i data []) = L) ->
+    StrictIncQc xs -> length xs = length data -> (3 <= length data)%nat ->
+    (Z.of_nat (length data) <= two64)%Z -> (0 < L)%nat ->
+    forall (c : Qc) (per_lane : list (rowbc Qc)) (shape : list nat) (ext : bool) (trail : list nat)
+           (sp sp' : spline_strat) (x : Qc) (v : list Qc),
+      length per_lane = L ->
+      spline_build NumQc (BIndividual per_lane shape) ext xs data trail = Ok sp ->
+      spline_build NumQc (BIndividual (map (conv_row (Qcmult c) (Qcmult c)) per_lane) shape) ext xs (map (map (Qcmult c)) data) trail = Ok sp' ->
+      (ext = false -> in_closed_range NumQc 0 xs x = true) ->
+      spline_interp NumQc sp xs data x = Ok v ->
+      spline_interp NumQc sp' xs (map (map (Qcmult c)) data) x = Ok (map (Qcmult c) v).
+Proof. exact spline_individual_scale_data. Qed.
+Print Assumptions C15_spline_individual_scale_data.
+
+Theorem C15_spline_individual_axis_units :
+  forall (xs : list Qc) (data : list (list Qc)) (L : nat),
+    (forall i, (i < length data)%nat -> length (nth i data []) = L) ->
+    StrictIncQc xs -> length xs = length data -> (3 <= length data)%nat ->
+    (Z.of_nat (length data) <= two64)%Z -> (0 < L)%nat ->
+    forall (c s : Qc) (per_lane : list (rowbc Qc)) (shape : list nat) (ext : bool) (trail : list nat)
+           (sp sp' : spline_strat) (x : Qc) (v : list Qc), 0 < c ->
+      length per_lane = L ->
+      spline_build NumQc (BIndividual per_lane shape) ext xs data trail = Ok sp ->
+      spline_build NumQc (BIndividual (map (conv_row (fun v => v / c) (fun v => v / (c * c))) per_lane) shape) ext
+                   (map (aff c s) xs) data trail = Ok sp' ->
+      (ext = false -> in_closed_range NumQc 0 xs x = true) ->
+      spline_interp NumQc sp xs data x = Ok v ->
+      spline_interp NumQc sp' (map (aff c s) xs) data (aff c s x) = Ok v.
+Proof. exact spline_individual_axis_units. Qed.
+Print Assumptions C15_spline_individual_axis_units.
+
+(* Partial: additivity of Bilinear and of Periodic / per-lane splines at interpolator level (scalar and row
+   statements above), Periodic outside the range (C07 covers the wrap) (slope statements above cover any Mixed pair) and the bit-for-bit clause
    for powers of two are validated by the metamorphic runs (exact at rationals, bitwise at f64). *)
 
 Example C15_ex : (* axis in other units: x -> 2x + 3 *)
